@@ -95,6 +95,7 @@ pxgstrf_pruneL(
 		            * 	interchange the two subscripts
 			    */
 		        ktemp = lsub[kmin];
+		        SLU_MT_VERIF_EVENT(SLU_EV_PRUNE_STEP, -1, jcol, irep, kmin, Glu);
 		        lsub[kmin] = lsub[kmax];
 		        lsub[kmax] = ktemp;
 		        kmin++;
